@@ -42,6 +42,14 @@ def dict_diff(a, b, what):
     return out
 
 
+def eval_fail_first_line(net, **kwargs):
+    """evaluation function (module level: picklable for the worker processes): the outage of the first line does not converge"""
+    import pandapower as pp
+    if not bool(net.line.in_service.iloc[0]):
+        raise pp.LoadflowNotConverged("outage of the first line fails (harness)")
+    pp.runpp(net, **kwargs)
+
+
 def run(ctx):
     import pandapower as pp
     from pandapower.contingency import run_contingency
@@ -104,6 +112,35 @@ def run(ctx):
             for t in d[:1]:
                 ctx.failure("par-vs-seq:" + t.split(":")[1].strip().split(" ")[0].split(".")[-1], t,
                             {"net_json": net_json, "cases": cases, "n_procs": n})
+    # direct oracle 2b: an N-1 case that fails early in a worker's chunk (more than 4 * n_procs cases, so chunks hold several cases)
+    for k in range(ctx.budget(1, 4)):
+        net = c14.mesh_net(rng)
+        cases = {"line": {"index": [int(i) for i in net.line.index]}}
+        if len(net.trafo):
+            cases["trafo"] = {"index": [int(i) for i in net.trafo.index]}
+        net_json = pp.to_json(net)
+        try:
+            with core.quiet():
+                ref = run_contingency(copy.deepcopy(net), cases, contingency_evaluation_function=eval_fail_first_line)
+        except Exception as e:       # noqa
+            ctx.note(f"run_contingency with a failing case: {type(e).__name__}: {e}")
+            continue
+        n2 = copy.deepcopy(net)
+        try:
+            with core.quiet():
+                got = run_contingency_parallel(n2, cases, n_procs=2, contingency_evaluation_function=eval_fail_first_line)
+        except Exception as e:   # noqa
+            ctx.failure("par-raises", f"run_contingency_parallel(n_procs=2) with a failing N-1 case raised {type(e).__name__}: {e}",
+                        {"net_json": net_json, "cases": cases, "n_procs": 2})
+            continue
+        d = dict_diff(ref, got, "n_procs=2")
+        for b in c14.BRANCHES:
+            if len(net[b]) and not np.array_equal(net[b].in_service.values, n2[b].in_service.values):
+                d.append(f"n_procs=2: {b}.in_service changed")
+        ctx.count(("pf-fail", k), nontrivial=True)
+        for t in d[:1]:
+            ctx.failure("par-vs-seq:failing-case", t + " (the outage of the first line fails in both analyses)",
+                        {"net_json": net_json, "cases": cases, "n_procs": 2})
     ctx.assumptions.append("multiprocessing.Pool.map returns the per-case results in task order (documented contract); "
                            "other completion orders are covered by the permutation theorem and by folding the real "
                            "aggregation over shuffled worker packs")
